@@ -25,4 +25,10 @@ func (k *Keeper) EndBlock(ctx sdk.Context) {
 	receipts := k.GetTxReceiptsTransient(zeroGasCtx)
 	bloom := ethtypes.CreateBloom(receipts)
 	k.EmitBlockBloomEvent(zeroGasCtx, bloom)
+
+	// The per-tx flags of the ante handler are meaningless once the last tx of the block was processed.
+	// Query contexts share the transient store with the pending block until it is committed,
+	// a leftover flag would change the result of tracing (the replay would refund gas fee).
+	k.SetFlagSenderPaidTxFeeInAnteHandle(zeroGasCtx, false)
+	k.SetFlagSenderNonceIncreasedByAnteHandle(zeroGasCtx, false)
 }
